@@ -12,6 +12,7 @@ use crate::jws::JwsHeader;
 use crate::jwu::create_message;
 use crate::jwu::decode_b64;
 use crate::jwu::decode_b64_json;
+use crate::jwu::extract_b64;
 use crate::jwu::filter_non_empty_bytes;
 use crate::jwu::parse_utf8;
 use crate::jwu::validate_jws_headers;
@@ -349,6 +350,18 @@ impl Decoder {
 
     let payload = Self::expand_payload(detached_payload, data.payload)?;
     let signatures = data.signatures;
+
+    // With multiple signatures the `b64` value must be the same for all of them (RFC 7797, section 3).
+    // Protected headers that do not decode are reported when their signature is decoded.
+    let mut b64_values = signatures
+      .iter()
+      .filter_map(|signature| signature.protected.map(decode_b64_json::<JwsHeader>).transpose().ok())
+      .map(|protected| extract_b64(protected.as_ref()));
+    if let Some(first) = b64_values.next() {
+      if b64_values.any(|b64| b64 != first) {
+        return Err(Error::InvalidParam("b64"));
+      }
+    }
 
     Ok(JwsValidationIter {
       decoder: self,
